@@ -236,7 +236,255 @@ where
     run.describe(|| format!("forged coders W={w} S={s} state {:#x}", state.as_u()));
 }
 
+// --------------------------------------------------------------------------------------------
+// models built from hostile float tables, then used in every way the safe API allows
+
+use crate::props::c03::{table_desc, FloatT};
+use constriction::stream::model::*;
+use constriction::stream::{Decode, Encode};
+
+/// Entries on and around the fixed-point grid (so that roundings land on 0, 1, 2 units), with
+/// hostile values (NaN, infinities, negatives, -0, subnormals) mixed in.
+fn gen_hostile_table<F: FloatT>(rng: &mut Rng, p: u32, max_len: usize) -> (Vec<F>, Option<F>) {
+    let len = rng.usize_in(1, max_len);
+    let norm64 = match rng.below(4) {
+        0 => 1.0,
+        1 => 0.25 + 8.0 * rng.f64(),
+        _ => 1.0,
+    };
+    let unit = norm64 / (p as f64).exp2();
+    let mut v: Vec<f64> = (0..len)
+        .map(|_| match rng.below(6) {
+            0 | 1 => (rng.below(4) as f64 + *rng.pick(&[0.0, 0.25, 0.5, 0.75, 0.999])) * unit,
+            2 => 0.0,
+            3 => norm64 * rng.f64() / len as f64,
+            _ => norm64 * rng.f64(),
+        })
+        .collect();
+    let hostile = rng.usize_in(0, 2);
+    for _ in 0..hostile {
+        let k = rng.below(len as u64) as usize;
+        v[k] = match rng.below(8) {
+            0 | 1 | 2 => f64::NAN,
+            3 => f64::INFINITY,
+            4 => f64::NEG_INFINITY,
+            5 => -v[k],
+            6 => -0.0,
+            _ => 5e-324,
+        };
+    }
+    let norm = match rng.below(6) {
+        0 => None,
+        1 => Some(v.iter().copied().filter(|x| x.is_finite()).sum::<f64>()),
+        2 => Some(*rng.pick(&[0.0, -1.0, f64::NAN, f64::INFINITY, 1e-300, 1e300])),
+        _ => Some(norm64),
+    };
+    (v.into_iter().map(F::from64).collect(), norm.map(F::from64))
+}
+
+fn use_decoder_model<M, const P: usize>(rng: &mut Rng, m: &M) -> u64
+where
+    M: DecoderModel<P>,
+    M::Probability: Num + Into<u32>,
+    u32: AsPrimitive<M::Probability>,
+{
+    let pb = <M::Probability as Num>::NBITS;
+    let mut calls = 0;
+    for _ in 0..48 {
+        // in-range and (where the type allows) out-of-range quantiles
+        let q = match rng.below(4) {
+            0 => rng.edgy(P as u32) & mask(P as u32),
+            1 => rng.edgy(pb) & mask(pb),
+            _ => rng.below128(1u128 << P),
+        };
+        if q >> P != 0 && (P as u32) < pb {
+            // documented precondition `quantile < 1 << PRECISION`; a panic is fine here, UB is not
+            let r = std::panic::catch_unwind(std::panic::AssertUnwindSafe(|| {
+                let _ = m.quantile_function(<M::Probability as Num>::of(q));
+            }));
+            if r.is_err() && crate::is_ub_check_panic(&crate::last_panic()) {
+                std::panic::resume_unwind(Box::new(crate::last_panic()));
+            }
+        } else {
+            let _ = m.quantile_function(<M::Probability as Num>::of(q));
+        }
+        calls += 1;
+    }
+    // decode a few symbols from arbitrary words
+    let words: Vec<u32> = (0..6).map(|_| rng.u64() as u32).collect();
+    if let Ok(mut ans) = AnsCoder::<u32, u64>::from_binary(words) {
+        for _ in 0..8 {
+            let _ = ans.decode_symbol(m);
+            calls += 1;
+        }
+    }
+    calls
+}
+
+fn use_encoder_model<M, const P: usize>(m: &M, symbols: impl Iterator<Item = M::Symbol>) -> u64
+where
+    M: EncoderModel<P>,
+    M::Probability: Num + Into<u32>,
+    M::Symbol: Clone,
+    u32: AsPrimitive<M::Probability>,
+{
+    let mut calls = 0;
+    let mut ans = AnsCoder::<u32, u64>::new();
+    for s in symbols {
+        let _ = m.left_cumulative_and_probability(s.clone());
+        let _ = ans.encode_symbol(s, m);
+        calls += 2;
+    }
+    calls
+}
+
+/// Lookup models exist only for probability types that convert losslessly to usize (u8, u16).
+trait MaybeLookup: Sized {
+    fn lookup<F: FloatT + AsPrimitive<Self>, const P: usize>(rng: &mut Rng, v: &[F], norm: Option<F>, labels: &[i32]) -> (bool, u64)
+    where
+        usize: AsPrimitive<Self> + AsPrimitive<F>,
+        Self: AsPrimitive<F>;
+}
+impl MaybeLookup for u32 {
+    fn lookup<F: FloatT + AsPrimitive<Self>, const P: usize>(_: &mut Rng, _: &[F], _: Option<F>, _: &[i32]) -> (bool, u64)
+    where
+        usize: AsPrimitive<Self> + AsPrimitive<F>,
+        Self: AsPrimitive<F>,
+    {
+        (false, 0)
+    }
+}
+macro_rules! impl_lookup {
+    ($t:ty) => {
+        impl MaybeLookup for $t {
+            fn lookup<F: FloatT + AsPrimitive<Self>, const P: usize>(rng: &mut Rng, v: &[F], norm: Option<F>, labels: &[i32]) -> (bool, u64)
+            where
+                usize: AsPrimitive<Self> + AsPrimitive<F>,
+                Self: AsPrimitive<F>,
+            {
+                let mut used = 0;
+                let mut acc = false;
+                if rng.bool() {
+                    if let Ok(m) = ContiguousLookupDecoderModel::<$t, Vec<$t>, Box<[$t]>, P>::from_floating_point_probabilities_fast(v, norm) {
+                        acc = true;
+                        used += use_decoder_model::<_, P>(rng, &m);
+                    }
+                    if let Ok(m) = ContiguousCategoricalEntropyModel::<$t, Vec<$t>, P>::from_floating_point_probabilities_fast(v, norm) {
+                        let l = m.to_lookup_decoder_model();
+                        used += use_decoder_model::<_, P>(rng, &l);
+                    }
+                } else if let Ok(m) = NonContiguousLookupDecoderModel::<i32, $t, Vec<($t, i32)>, Box<[$t]>, P>::from_symbols_and_floating_point_probabilities_fast(labels.iter().copied(), v, norm) {
+                    acc = true;
+                    used += use_decoder_model::<_, P>(rng, &m);
+                }
+                (acc, used)
+            }
+        }
+    };
+}
+impl_lookup!(u8);
+impl_lookup!(u16);
+
+fn hostile_lookup<F, Pr, const P: usize>(run: &mut Run, rng: &mut Rng, v: &[F], norm: Option<F>, labels: &[i32], desc: &str)
+where
+    F: FloatT + AsPrimitive<Pr>,
+    Pr: Num + MaybeLookup + AsPrimitive<F>,
+    usize: AsPrimitive<Pr> + AsPrimitive<F>,
+{
+    let (accepted, used) = Pr::lookup::<F, P>(rng, v, norm, labels);
+    run.count(if accepted { "hostile_tables_accepted" } else { "hostile_tables_rejected" }, 1);
+    run.count("calls_on_models_from_hostile_tables", used);
+    if accepted {
+        run.nontrivial();
+    }
+    run.describe(|| desc.to_string());
+}
+
+fn hostile_models<F, Pr, const P: usize>(run: &mut Run, rng: &mut Rng)
+where
+    F: FloatT + AsPrimitive<Pr>,
+    Pr: Num + AsPrimitive<usize> + AsPrimitive<F> + Into<u32> + Into<f64> + MaybeLookup,
+    usize: AsPrimitive<Pr> + AsPrimitive<F>,
+    u32: AsPrimitive<Pr>,
+    f64: AsPrimitive<Pr>,
+{
+    run.count("hostile_model_cases", 1);
+    let max_len = if run.small { 6 } else { ((1usize << P.min(6)) + 2).min(24) };
+    let (v, norm) = gen_hostile_table::<F>(rng, P as u32, max_len);
+    for x in &v {
+        let y: f64 = (*x).into();
+        run.h(y.to_bits());
+    }
+    let n = v.len();
+    let which = rng.below(9);
+    run.h(4 << 60 | (P as u64) << 8 | which);
+    let desc = format!("hostile table <{},{},{}> ctor {which}: {} normalization {:?}", Pr::NAME, F::FNAME, P, table_desc(&v), norm);
+    run.note(|| desc.clone());
+    let labels: Vec<i32> = (0..n as i32).map(|i| i * 3 - 7).collect();
+    let syms = || (0..n + 2).chain([usize::MAX, usize::MAX / 2 + 1]);
+    let lsyms = || labels.clone().into_iter().chain([i32::MIN, i32::MAX, 1]);
+    let mut used = 0u64;
+    let accepted = match which {
+        0 => ContiguousCategoricalEntropyModel::<Pr, Vec<Pr>, P>::from_floating_point_probabilities_fast(&v, norm)
+            .map(|m| {
+                used += use_encoder_model::<_, P>(&m, syms());
+                used += use_decoder_model::<_, P>(rng, &m);
+                let _ = m.symbol_table().count();
+                let _ = m.entropy_base2::<f64>();
+            })
+            .is_ok(),
+        1 => LazyContiguousCategoricalEntropyModel::<Pr, F, &[F], P>::from_floating_point_probabilities_fast(&v[..], norm)
+            .map(|m| {
+                used += use_encoder_model::<_, P>(&m, syms());
+                used += use_decoder_model::<_, P>(rng, &m);
+            })
+            .is_ok(),
+        2 => return hostile_lookup::<F, Pr, P>(run, rng, &v, norm, &labels, &desc),
+        3 => NonContiguousCategoricalDecoderModel::<i32, Pr, Vec<(Pr, i32)>, P>::from_symbols_and_floating_point_probabilities_fast(labels.iter().copied(), &v, norm)
+            .map(|m| {
+                used += use_decoder_model::<_, P>(rng, &m);
+                let _ = m.symbol_table().count();
+            })
+            .is_ok(),
+        4 => return hostile_lookup::<F, Pr, P>(run, rng, &v, norm, &labels, &desc),
+        5 => NonContiguousCategoricalEncoderModel::<i32, Pr, P>::from_symbols_and_floating_point_probabilities_fast(labels.iter().copied(), &v, norm)
+            .map(|m| used += use_encoder_model::<_, P>(&m, lsyms()))
+            .is_ok(),
+        6 => ContiguousCategoricalEntropyModel::<Pr, Vec<Pr>, P>::from_floating_point_probabilities_perfect(&v)
+            .map(|m| {
+                used += use_encoder_model::<_, P>(&m, syms());
+                used += use_decoder_model::<_, P>(rng, &m);
+            })
+            .is_ok(),
+        7 => NonContiguousCategoricalDecoderModel::<i32, Pr, Vec<(Pr, i32)>, P>::from_symbols_and_floating_point_probabilities_perfect(labels.iter().copied(), &v)
+            .map(|m| used += use_decoder_model::<_, P>(rng, &m))
+            .is_ok(),
+        _ => NonContiguousCategoricalEncoderModel::<i32, Pr, P>::from_symbols_and_floating_point_probabilities_perfect(labels.iter().copied(), &v)
+            .map(|m| used += use_encoder_model::<_, P>(&m, lsyms()))
+            .is_ok(),
+    };
+    run.count(if accepted { "hostile_tables_accepted" } else { "hostile_tables_rejected" }, 1);
+    run.count("calls_on_models_from_hostile_tables", used);
+    if accepted {
+        run.nontrivial();
+    }
+    run.describe(|| desc);
+}
+
 pub fn case(run: &mut Run, rng: &mut Rng) {
+    if rng.chance(1, 3) {
+        let combos: &[fn(&mut Run, &mut Rng)] = &[
+            hostile_models::<f64, u32, 24>,
+            hostile_models::<f32, u32, 24>,
+            hostile_models::<f64, u16, 12>,
+            hostile_models::<f32, u16, 16>,
+            hostile_models::<f64, u8, 8>,
+            hostile_models::<f64, u8, 3>,
+            hostile_models::<f64, u32, 32>,
+        ];
+        let k = rng.below(combos.len() as u64) as usize;
+        return combos[k](run, rng);
+    }
     if rng.bool() {
         match rng.below(4) {
             0 => cursor_abuse::<u8>(run, rng),
